@@ -167,6 +167,16 @@ def CS.addCallArgs (cs : CS ν) : Res (CS ν × Nat) :=
   if cs.nCallArgs + 1 ≤ 65535 then .ok ({ cs with nCallArgs := cs.nCallArgs + 1 }, cs.nCallArgs)
   else .panic "assertion failed: self.ffi_call_args.len() <= u16::MAX as usize"
 
+/-- `patch_u16_value_at` on the chunk being compiled -/
+def CS.patch (cs : CS ν) (offset v : Nat) : CS ν := { cs with code := patchU16 cs.code offset v }
+
+/-- state of the compiler of a conditional after the `then` branch (`cs3`, compiled from `cs1` + `JumpIfFalse`):
+    `Jump 0xffff` appended and the operand of the `JumpIfFalse` patched to point behind it -/
+def condPatch1 (cs1 cs3 : CS ν) : CS ν :=
+  let ifJumpOffset := (cs1.offset + 1) % 65536
+  let cs4 := cs3.emit .jump [0xffff]
+  cs4.patch ifJumpOffset (subU16 cs4.offset (ifJumpOffset + 2))
+
 def binOpcode : BinOp → Op
   | .arith .add => .add
   | .arith .sub => .subtract
@@ -182,10 +192,6 @@ def binOpcode : BinOp → Op
   | .ne => .notEqual
   | .and => .logicalAnd
   | .or => .logicalOr
-
-def idxOf? (x : Name) (l : List Name) : Option Nat :=
-  let i := l.idxOf x
-  if i < l.length then some i else none
 
 /-- run compile actions one after the other -/
 def runAll (acts : List (CS ν → Res (CS ν))) (cs : CS ν) : Res (CS ν) :=
@@ -231,17 +237,14 @@ def compileExpr : Expr ν → CS ν → Res (CS ν)
       (compileExpr callee cs).bind fun cs =>
         cs.addCallArgs.bind fun (cs, a) => .ok (cs.emit .callCallable [args.length, a])
   | .cond c t e, cs =>
-    (compileExpr c cs).bind fun cs =>
-      let ifJumpOffset := (cs.offset + 1) % 65536
-      let cs := cs.emit .jumpIfFalse [0xffff]
-      (compileExpr t cs).bind fun cs =>
-        let elseJumpOffset := (cs.offset + 1) % 65536
-        let cs := cs.emit .jump [0xffff]
-        let elseBlockOffset := cs.offset
-        let cs := { cs with code := patchU16 cs.code ifJumpOffset (subU16 elseBlockOffset (ifJumpOffset + 2)) }
-        (compileExpr e cs).bind fun cs =>
-          let endOffset := cs.offset
-          .ok { cs with code := patchU16 cs.code elseJumpOffset (subU16 endOffset (elseJumpOffset + 2)) }
+    (compileExpr c cs).bind fun cs1 =>
+      -- if_jump_offset = current_offset() + 1; JumpIfFalse 0xffff
+      (compileExpr t (cs1.emit .jumpIfFalse [0xffff])).bind fun cs3 =>
+        -- else_jump_offset = current_offset() + 1; Jump 0xffff; else_block_offset = current_offset();
+        -- patch_u16_value_at(if_jump_offset, else_block_offset - (if_jump_offset + 2))
+        (compileExpr e (condPatch1 cs1 cs3)).bind fun cs6 =>
+          -- end_offset = current_offset(); patch_u16_value_at(else_jump_offset, end_offset - (else_jump_offset + 2))
+          .ok (cs6.patch ((cs3.offset + 1) % 65536) (subU16 cs6.offset ((cs3.offset + 1) % 65536 + 2)))
   | .str parts, cs => (compileParts parts cs).bind fun cs => .ok (cs.emit .joinString [parts.length])
   | .mk info fields, cs =>
     if fields.all (fun f => (fieldIdx info f.name).isSome) then
